@@ -339,7 +339,12 @@ func importNewRef(entry sortref.RefRevIdx, refStr string, opts *FlattenOpts) err
 
 	// now rewrite those refs with rebase
 	for key, ref := range partialAnalyzer.references.allRefs {
-		if err := replace.UpdateRef(sch, key, spec.MustCreateRef(normalize.RebaseRef(entry.Ref.String(), ref.String()))); err != nil {
+		rebased, erb := spec.NewRef(normalize.RebaseRef(entry.Ref.String(), ref.String()))
+		if erb != nil {
+			// the rebased (unescaped) $ref is not a valid URI, e.g. a name with a literal '%'
+			return ErrRewriteRef(key, entry.Ref.String(), erb)
+		}
+		if err := replace.UpdateRef(sch, key, rebased); err != nil {
 			return ErrRewriteRef(key, entry.Ref.String(), err)
 		}
 	}
